@@ -62,7 +62,7 @@ type Term struct {
 var (
 	termTab  = map[string]*Term{}
 	termNext = 1
-	symDecls = map[string]*Term{} // free symbols
+	symDecls = map[string]*Term{}  // free symbols
 	funDecls = map[string]string{} // name -> declaration text
 	funOrder []string
 )
@@ -460,6 +460,18 @@ func Ite(c, a, b *Term) *Term {
 			return Not(c)
 		}
 	}
+	if a.sort == SInt {
+		// factor a common base out of the branches: ite(c, x+k, x) = x + ite(c, k, 0)
+		if a.kind == 0 && a.op == "+" && len(a.args) == 2 && a.args[0] == b {
+			return Add(b, App("ite", SInt, c, a.args[1], IntLit(0)))
+		}
+		if b.kind == 0 && b.op == "+" && len(b.args) == 2 && b.args[0] == a {
+			return Add(a, App("ite", SInt, c, IntLit(0), b.args[1]))
+		}
+		if a.kind == 0 && a.op == "+" && b.kind == 0 && b.op == "+" && len(a.args) == 2 && len(b.args) == 2 && a.args[0] == b.args[0] {
+			return Add(a.args[0], App("ite", SInt, c, a.args[1], b.args[1]))
+		}
+	}
 	return App("ite", a.sort, c, a, b)
 }
 
@@ -645,10 +657,51 @@ func Exists(vars []*Term, body *Term, pats ...[]*Term) *Term {
 	return quant("exists", vars, body, pats)
 }
 
+// validPattern: E-matching patterns may not contain boolean connectives or ite.
+func validPattern(t *Term) bool {
+	seen := map[int]bool{}
+	var rec func(t *Term) bool
+	rec = func(t *Term) bool {
+		if seen[t.id] {
+			return true
+		}
+		seen[t.id] = true
+		if t.kind == 2 {
+			return false
+		}
+		if t.kind == 0 {
+			switch t.op {
+			case "ite", "and", "or", "not", "=>", "=", "<", "<=", ">", ">=", "distinct":
+				return false
+			}
+		}
+		for _, a := range t.args {
+			if !rec(a) {
+				return false
+			}
+		}
+		return true
+	}
+	return rec(t)
+}
+
 func quant(q string, vars []*Term, body *Term, pats [][]*Term) *Term {
 	if body == True || body == False || len(vars) == 0 {
 		return body
 	}
+	var good [][]*Term
+	for _, p := range pats {
+		ok := len(p) > 0
+		for _, x := range p {
+			if !validPattern(x) {
+				ok = false
+			}
+		}
+		if ok {
+			good = append(good, p)
+		}
+	}
+	pats = good
 	t := &Term{op: q, sort: SBool, args: []*Term{body}, bvars: vars, pats: pats, kind: 2}
 	r := intern(t)
 	// bound-ness: closed if all bound vars in body are among vars (approximation: we
